@@ -175,6 +175,21 @@ def run(tier: str) -> int:
             L.add('C18_npv_cost', 'nonincreasing', lambda r: r['out']['npv'], rungs, {'parameter': name, 'base': f'plant{plant}#{k}'})
             L.add('C18_lc_cost', 'nondecreasing', lambda r: [r['out']['lcoe'], r['out']['lcoh'], r['out']['lcoc']], rungs,
                   {'parameter': name, 'base': f'plant{plant}#{k}'}, precondition=energy_positive)
+    # cogeneration with an explicit (small or large) electricity share of plant cost and a tax credit, all three economic models:
+    # each product's levelised cost must still not fall when a capital cost rises
+    for k in range(6 if tier == 'quick' else 36):
+        eu = gen.COGEN[k % len(gen.COGEN)]
+        p = gen.base(rng, 4, eu, rng.choice([1, 2, 4]), (3, 3, 1, 2)[k % 4], lifetime=rng.choice([10, 20, 30]), steps=2)
+        gen.add_prices(p, rng)
+        p['CHP Electrical Plant Cost Allocation Ratio'] = gen.fmt(rng.uniform(0.05, 0.4) if k % 3 else rng.uniform(0.6, 0.95))
+        p['Investment Tax Credit Rate'] = gen.fmt(rng.uniform(0.15, 0.5))
+        for name in rng.sample(['Exploration Capital Cost', 'Reservoir Stimulation Capital Cost', 'Field Gathering System Capital Cost',
+                                'Reservoir Stimulation Capital Cost Adjustment Factor', 'Exploration Capital Cost Adjustment Factor',
+                                'Surface Plant Capital Cost', 'Well Drilling and Completion Capital Cost'], 3):
+            rungs = [(x, with_param(p, name, x)) for x in rungs_for(rng, name, 3)]
+            L.add('C18_npv_cost', 'nonincreasing', lambda r: r['out']['npv'], rungs, {'parameter': name, 'base': f'cogen-split#{k}:eu{eu}'})
+            L.add('C18_lc_cost', 'nondecreasing', lambda r: [r['out']['lcoe'], r['out']['lcoh'], r['out']['lcoc']], rungs,
+                  {'parameter': name, 'base': f'cogen-split#{k}:eu{eu}'}, precondition=energy_positive)
     # multi-segment columns whose temperature cap binds in a deeper segment (the states Resource.tla's lemma quantifies over)
     for k in range(6 if tier == 'quick' else 60):
         p = gen.base(rng, 4, 2, 9, 2, lifetime=5, steps=2)
